@@ -46,6 +46,9 @@ SCENARIOS = {
     'single-message-tracks': [[ev('tempo', 0, 1)], [ev('n', 4, 2)], [ev('eot', 9)], [ev('n', 1, 3), ev('n', 1, 4)]],
     # meta events of types the library does not know, and text events (whatever charset their file was loaded with)
     'unknown-meta-and-text': [[ev('unk', 3, 1), ev('n', 2, 2), ev('txt', 0, 3)], [ev('unk', 4, 4), ev('txt', 1, 5), ev('eot', 2)]],
+    # ties are broken by track and position only, never by what kind of message it is: a note_off behind a note_on on the same
+    # tick (a legato line), or in a later track than a tempo change on that tick, stays behind
+    'note-offs-in-ties': [[ev('n', 0, 1), ev('n', 10, 2), ev('off', 0, 1), ev('tempo', 0, 3), ev('off', 5, 2)], [ev('tempo', 10, 4), ev('off', 0, 5), ev('n', 5, 6)]],
     # tracks may hold frozen messages (the documented way to keep messages in sets and as dictionary keys): they merge like any
     # other, and come out frozen
     'frozen-messages': [[ev('tempo', 0, 1), ev('n', 5, 2), ev('unk', 1, 3), ev('eot', 4)], [ev('n', 5, 4), ev('tempo', 0, 5), ev('eot', 1)]],
@@ -61,6 +64,8 @@ def build(ai, ctx, spec, frozen=False):
         for kind, t, note in tr:
             if kind == 'n':
                 m = wire.make_message(ctx, 'note_on', {'channel': smf.sym(f'ch{note}', 15), 'note': note, 'velocity': smf.sym(f'v{note}', 127)}, t)
+            elif kind == 'off':
+                m = wire.make_message(ctx, 'note_off', {'channel': smf.sym(f'ch{note}', 15), 'note': note, 'velocity': smf.sym(f'v{note}', 127)}, t)
             elif kind == 'tempo':
                 m = wire.make_meta(ai, ctx, 'set_tempo', {'tempo': 1000 + note}, t)
             elif kind == 'unk':
@@ -105,6 +110,8 @@ def ident_of(obj):
     t = obj.attrs.get('type')
     if t == 'note_on':
         return ('n', obj.attrs.get('note'))
+    if t == 'note_off':
+        return ('off', obj.attrs.get('note'))
     if t == 'set_tempo':
         return ('tempo', obj.attrs.get('tempo') - 1000 if isinstance(obj.attrs.get('tempo'), int) else None)
     if t == 'end_of_track':
@@ -173,7 +180,7 @@ def r12_scenarios(ctx):
             ctx.require(untouched, 'R12.4', f'{inst}.inputs', w, 'merge_tracks modifies its input tracks or messages', construct=cons + '::inputs-modified')
             fresh = all(not any(x is m for m in holder['msgs']) or x.attrs.get('time') == m_time(holder, x) for x in items)
             ctx.require(fresh, 'R12.4', f'{inst}.aliasing', w, 'an input message appears in the result with a changed time', construct=cons + '::aliasing')
-    ctx.floor('R12.1', n, 26)
+    ctx.floor('R12.1', n, 28)
     for q in ai.inlined:
         ctx.functions.add(q)
 
